@@ -3,7 +3,7 @@
     M = ChunkModel.v (hchunks.c index arithmetic) and MCacheModel.v (mcache.c), both over gen/Gen_Chunk.v, which is
     regenerated from the C sources on every run. *)
 From Coq Require Import ZArith List Bool String Lia.
-Require Import H4.gen.Gen_Chunk H4.ChunkModel H4.MCacheModel H4.HChunkModel H4.ChunkProofs H4.MCacheProofs H4.HChunkProofs.
+Require Import H4.gen.Gen_Chunk H4.ChunkModel H4.MCacheModel H4.HChunkModel H4.ChunkProofs H4.MCacheProofs H4.HChunkProofs H4.ExtEltModel H4.ExtEltProofs.
 Import ListNotations.
 Local Open Scope Z_scope.
 
@@ -111,6 +111,44 @@ Theorem whole_chunk_is_slab : forall nt dd, geometry_ok nt dd ->
 Proof. exact whole_chunk_is_slab_lemma. Qed.
 Print Assumptions whole_chunk_is_slab.
 
+(** external_refines_stream.  External elements (hextelt.c HXPwrite/HXPread; position update, growth test and new
+    length regenerated from the source): element byte q is file byte extern_offset + q; a write of [data] at position
+    posn makes the element's length max(old length, posn + len) -- it never shrinks, whatever the offset --, changes
+    exactly the element bytes [posn, posn+len) and leaves the foreign bytes in front of the element alone; a read
+    inside the element returns exactly its bytes. *)
+Theorem external_refines_stream :
+  (forall x f data, 0 <= x_posn x -> 0 <= x_offset x ->
+     let x' := fst (hxp_write x f data) in let f' := snd (hxp_write x f data) in
+     let len := Z.of_nat (List.length data) in
+     x_length x' = Z.max (x_length x) (x_posn x + len) /\ x_posn x' = x_posn x + len /\ x_offset x' = x_offset x /\
+     (forall q, 0 <= q ->
+        f' (x_offset x + q) = if (x_posn x <=? q) && (q <? x_posn x + len) then nth (Z.to_nat (q - x_posn x)) data 0
+                             else f (x_offset x + q)) /\
+     (forall k, k < x_offset x -> f' k = f k)) /\
+  (forall x f len, 0 <= x_posn x -> 1 <= len -> x_posn x + len <= x_length x ->
+     exists x' out, hxp_read x f len = Some (x', out) /\ x_posn x' = x_posn x + len /\ x_length x' = x_length x /\
+       Z.of_nat (List.length out) = len /\
+       forall i, 0 <= i < len -> nth (Z.to_nat i) out 0 = f (x_offset x + (x_posn x + i))).
+Proof. exact (conj hxp_write_refines hxp_read_refines). Qed.
+Print Assumptions external_refines_stream.
+
+(** the call skeletons the hand-written loop models rely on: HMCPseek/HMCPread/HMCPwrite bring the shared chunk
+    indices up to date from the access record's own position before they use them (the indices are shared by all access
+    ids of the element), the whole-chunk routines compute the chunk number from the origin, the external routines seek to
+    posn + extern_offset, and GRsetexternalfile/SDsetexternalfile hand (offset, length) to HXcreate in that order *)
+Theorem call_skeletons_as_modelled :
+  HMCPread_q_calls <> [] /\ hd ""%string HMCPread_q_calls =
+    "update_chunk_indices_seek(access_rec->posn, info->ndims, info->nt_size, info->seek_chunk_indices, info->seek_pos_chunk, info->ddims)"%string /\
+  hd ""%string HMCPwrite_q_calls = hd ""%string HMCPread_q_calls /\
+  GRsetexternalfile_q_calls =
+    ["HXcreate(ri_ptr->gr_ptr->hdf_file_id, ri_ptr->img_tag, ri_ptr->img_ref, filename, offset, 0)"%string] /\
+  hd ""%string HXPwrite_q_calls = "fseek((info->file_external), (long)(access_rec->posn + info->extern_offset), 0)"%string /\
+  hd ""%string HXPread_q_calls = hd ""%string HXPwrite_q_calls.
+Proof.
+  destruct call_skeletons as (_ & R & W & _ & _ & G & _ & XW & XR). rewrite R, W, G, XW, XR. repeat split; discriminate.
+Qed.
+Print Assumptions call_skeletons_as_modelled.
+
 (** the generated constants / loop headers the models' case analyses rely on *)
 Theorem generated_skeleton_as_modelled :
   (MCACHE_DIRTY = 1 /\ MCACHE_PINNED = 2 /\ Z.land MCACHE_DIRTY MCACHE_PINNED = 0 /\
@@ -160,6 +198,12 @@ Proof.
   - intros cn _. reflexivity.
   - vm_compute. repeat split; congruence.
 Qed.
+
+Example external_write_near_the_end :
+  let x := mkx 8 12 300 in
+  x_length (fst (hxp_write x (fun _ => 0) [1; 2])) = 12 /\ snd (hxp_write x (fun _ => 0) [1; 2]) 309 = 2 /\
+  snd (hxp_write x (fun _ => 0) [1; 2]) 299 = 0.
+Proof. vm_compute. repeat split; reflexivity. Qed.
 
 Example stream_example :
   chunk_read_elem 1 [mk_dim 5 2; mk_dim 7 3]
